@@ -282,7 +282,10 @@ func (c *Ctx) rulesC10() {
 		fCk := c.field(pr, "MsgSrvUpdate", "Checksum")
 		ups := c.sitesIn(f, pr+":NetMachInternal.UpdateClock")
 		c.check(len(ups) == 1, "C10.chk", "clockUpdate applies the clock at one site", f.Pos(), fmt.Sprintf("%d UpdateClock sites", len(ups)))
-		cfu := c.sitesIn(f, pr+":Client.clockFromUpdate")
+		var cfu []ssa.CallInstruction
+		if dfn := c.fnOpt(pr + ":Client.clockFromUpdate"); dfn != nil {
+			cfu = c.sitesIn(f, funcKey(dfn))
+		}
 		inPlace := c.fnOpt(pr+":Client.clockFromUpdate") == nil
 		for i, s := range ups {
 			okg := false
